@@ -24,6 +24,7 @@ import Hdl21Model.Lemmas.Resolve
 import Hdl21Model.Lemmas.Export
 import Hdl21Model.Lemmas.PortRefs
 import Hdl21Model.Props.C03
+import Hdl21Model.Lemmas.Rename
 namespace Hdl21.Props.C01
 open Hdl21 Hdl21.Pkg
 
@@ -201,5 +202,30 @@ def exMod : Mod := ⟨[(0, 0), (1, 0), (2, 0), (3, 0), (4, 0)],
   [((1, 0), .pref (0, 0)), ((2, 0), .pref (0, 0)), ((3, 0), .sig 0), ((4, 0), .nc 0)], 1⟩
 example : exMod.ports.map (resolvePort exMod) = [some 1, some 1, some 1, some 0, some 5] := by decide +kernel
 end F2
+
+/-! ## F2, continued: references inside slices and concatenations
+
+A connection may *contain* references — `Concat(other.q, sig[0])`, `other.q[1:3]`.  Such a reference stands for the whole
+port `other.q`; once that port's group has its signal (F2 above), `update_ref_deps` puts the signal in the reference's
+place.  In the model the written connection is an `SConn` in which a reference is a pseudo-signal of the port's width, and
+the elaborated connection is its `rename` under `ρ` = "pseudo-signal of `q` ↦ the signal `q` resolved to, signals ↦ themselves". -/
+
+/-- **Bit `i` of the elaborated connection is bit `i` of the written one**, with every bit of a referenced port replaced by the
+    same bit of the signal that port was resolved to, and every bit of a declared signal left as it is: slicing and
+    concatenating commute with resolving the references inside. -/
+theorem references_inside_compounds (ρ : String → String) (c : SConn) (bs : List Bit) (h : c.denote = .ok bs) :
+    (c.rename ρ).denote = .ok (bs.map (renameBit ρ)) ∧ (bs.map (renameBit ρ)).length = bs.length ∧
+    ∀ i : Nat, (bs.map (renameBit ρ))[i]? = (bs[i]?).map (renameBit ρ) := by
+  refine ⟨by rw [denote_rename, h], by simp, fun i => by simp⟩
+
+/-- … and a connection the designer could not have written (bad index, empty selection) stays refused. -/
+theorem references_inside_compounds_refused (ρ : String → String) (c : SConn) (e : Err) (h : c.denote = .error e) :
+    (c.rename ρ).denote = .error e := by
+  rw [denote_rename, h]
+
+/-- `Concat(&q[1:3], s[0])` with `q` (3 bits) resolved to the implicit signal `i_q`: the port gets `i_q[1], i_q[2], s[0]`. -/
+example :
+    ((SConn.concat [.slice (.sig "&q" 3) (.range (some 1) (some 3) none), .slice (.sig "s" 2) (.int 0)]).rename
+      (fun n => if n = "&q" then "i_q" else n)).denote.toOption = some [("i_q", 1), ("i_q", 2), ("s", 0)] := by decide
 
 end Hdl21.Props.C01
